@@ -65,27 +65,14 @@ func rangeElemOfField(v ssa.Value, field string) bool {
 	return ok
 }
 
-// splitPart: v = strings.Split(elem, sep)[k]; returns elem.
-func splitPart(v ssa.Value, sep string, k int64) (ssa.Value, *ssa.Call, bool) {
-	ld, ok := isLoad(v)
-	if !ok {
+// splitPart: v is part k of elem split at its single sep (strings.Split(elem, sep)[k], or elem[:i] / elem[i+1:] with
+// i = the index of sep); returns elem and, as the identity of the split, elem itself.
+func splitPart(v ssa.Value, sep string, k int64) (ssa.Value, ssa.Value, bool) {
+	src, s, idx, ok := splitPartOf(v)
+	if !ok || s != sep || int64(idx) != k {
 		return nil, nil, false
 	}
-	ia, ok := ld.X.(*ssa.IndexAddr)
-	if !ok {
-		return nil, nil, false
-	}
-	if n, isC := ConstInt(ia.Index); !isC || n != k {
-		return nil, nil, false
-	}
-	call, ok := ia.X.(*ssa.Call)
-	if !ok || !FuncIs(call.Call.StaticCallee(), "strings", "Split") {
-		return nil, nil, false
-	}
-	if s, _ := ConstString(call.Call.Args[1]); s != sep {
-		return nil, nil, false
-	}
-	return call.Call.Args[0], call, true
+	return src, src, true
 }
 
 func eqCond(dc Cond) (x, y ssa.Value, ok bool) {
@@ -188,7 +175,7 @@ func c12SSH(c *Ctx) {
 				if accepts(r) {
 					nsucc++
 					wild := false
-					var partsCall *ssa.Call
+					var partsCall ssa.Value
 					userOK, pwOK, lenOK := false, false, false
 					for _, dc := range conds {
 						x, y, ok := eqCond(dc)
@@ -215,15 +202,9 @@ func c12SSH(c *Ctx) {
 								}
 							}
 						}
-						// len(parts) == 2
-						if call, ok := x.(*ssa.Call); ok {
-							if bi, ok := call.Call.Value.(*ssa.Builtin); ok && bi.Name() == "len" {
-								if n, isC := ConstInt(y); isC && n == 2 {
-									if sc, ok := call.Call.Args[0].(*ssa.Call); ok && FuncIs(sc.Call.StaticCallee(), "strings", "Split") {
-										lenOK = true
-									}
-								}
-							}
+						// exactly two parts: len(Split(cred, ":")) == 2 or Count(cred, ":") == 1
+						if _, sep, ok := exactlyTwoParts(dc); ok && sep == ":" {
+							lenOK = true
 						}
 					}
 					ok := wild || (userOK && pwOK && lenOK)
